@@ -4,8 +4,8 @@
    How to read it.  The generic theorems (C10_label_get_exact ... C10_eval_slice_agrees) are stated for an arbitrary lookup `lc`
    meeting `locate_spec` (for ALL labels).  The theorems C10_own_* at the end are the END-TO-END statements about the container's
    own accessors get_item g st / set_item g st, pointwise in the labels the key makes the container look up: they are what covers
-   the property for list / tuple / range / NumPy-array spans with no hypothesis about the lookup at all (for NumPy-array spans:
-   every non-tuple label, and tuple labels unless the span has length 1 or 2 — exactly the class of the kept finding), and for
+   the property for list / tuple / range / NumPy-array spans with no hypothesis about the lookup at all (since fix 35fe7e2 a tuple
+   label is compared as ONE label against a NumPy-array span, so no label is excluded any more: C10_arr_tuple_label_absent), and for
    pandas spans relative to get_loc (an oracle, or the index models of LocateIndex.v which the correspondence check compares with
    pandas on every recorded answer — a sampled tie, not a proof about pandas).
    Documented exclusions (the property's text fixes no behaviour there; the model mirrors the code, K compares, the direct oracle
@@ -45,9 +45,9 @@ Theorem C10_locate_range_index (g : list label -> label -> outcome loc) (a s : Z
 Proof. exact (locate_range_spec g a s n). Qed.
 Print Assumptions C10_locate_range_index.
 
-(* the fallback (NumPy arrays): duplicate-free span, label that is not a tuple; the position is a built-in int *)
+(* the fallback (NumPy arrays): duplicate-free span, ANY label (also a tuple: one label since fix 35fe7e2); a built-in int *)
 Theorem C10_locate_fallback (g : list label -> label -> outcome loc) (ls : list label) (x : label) :
-  NoDup ls -> not_pair x ->
+  NoDup ls ->
   match pos x ls with
   | Some p => locate g (SArr ls) x = Ret (LPos (Z.of_nat p) true)
   | None => locate g (SArr ls) x = Raise KeyError
@@ -57,7 +57,7 @@ Print Assumptions C10_locate_fallback.
 
 (* ... and with duplicates (or no occurrence) the NotImplementedError / KeyError inside it surfaces as KeyError *)
 Theorem C10_locate_fallback_not_unique (g : list label -> label -> outcome loc) (ls : list label) (x : label) :
-  not_pair x -> cnt x ls <> 1%nat -> locate g (SArr ls) x = Raise KeyError.
+  cnt x ls <> 1%nat -> locate g (SArr ls) x = Raise KeyError.
 Proof. exact (locate_arr_not_unique g ls x). Qed.
 Print Assumptions C10_locate_fallback_not_unique.
 
@@ -68,21 +68,19 @@ Theorem C10_locate_pandas (g : list label -> label -> outcome loc) (ls : list la
 Proof. exact (locate_pandas_spec g ls). Qed.
 Print Assumptions C10_locate_pandas.
 
-(* all span types at once *)
-Theorem C10_locate_meets_spec (g : list label -> label -> outcome loc) (sp : span) (x : label) :
-  span_ok g sp -> label_ok sp x ->
-  match pos x (span_labels sp) with
-  | Some p => exists fl, locate g sp x = Ret (LPos (Z.of_nat p) fl)
-  | None => locate g sp x = Raise KeyError
-  end.
-Proof. exact (locate_meets_spec g sp x). Qed.
+(* all span types at once: with span_ok (range step <> 0; NumPy-array span duplicate-free; pandas get_loc meets the spec) the
+   container's OWN lookup meets locate_spec for ALL labels — the hypothesis of every generic theorem below is discharged *)
+Theorem C10_locate_meets_spec (g : list label -> label -> outcome loc) (sp : span) :
+  span_ok g sp -> locate_spec (span_labels sp) (locate g sp).
+Proof. exact (locate_meets_spec g sp). Qed.
 Print Assumptions C10_locate_meets_spec.
 
-(* the guard `not_pair` is needed: a tuple label on a NumPy span is broadcast against it and aliases period 0 *)
-Theorem C10_arr_tuple_label_aliases_refuted :
-  exists ls x, ~ In x ls /\ locate no_pandas (SArr ls) x = Ret (LPos 0 true).
-Proof. exact arr_tuple_label_aliases_refuted. Qed.
-Print Assumptions C10_arr_tuple_label_aliases_refuted.
+(* formerly refuted (finding: a tuple label was broadcast against a NumPy-array span and aliased a period); since fix 35fe7e2 a tuple
+   label that is no element of the span is simply absent, on spans of every length *)
+Theorem C10_arr_tuple_label_absent (g : list label -> label -> outcome loc) (ls : list label) (a b : Z) :
+  NoDup ls -> ~ In (LPair a b) ls -> locate g (SArr ls) (LPair a b) = Raise KeyError.
+Proof. exact (arr_tuple_label_absent g ls a b). Qed.
+Print Assumptions C10_arr_tuple_label_absent.
 
 (* ---------- label_get_set_exact: for EVERY lookup meeting locate_spec, every element type, every state ---------- *)
 Theorem C10_label_get_exact (V : Type) (lc : label -> outcome loc) (st : cstate V) (name : string) (sr : series V) :
@@ -432,11 +430,9 @@ Theorem C10_slice_write_then_label_reads (V : Type) (lc : label -> outcome loc) 
 Proof. exact (@slice_write_then_label_reads V lc st name sr a b s pa pb v). Qed.
 Print Assumptions C10_slice_write_then_label_reads.
 
-(* ================= END TO END: the container's own accessors, pointwise in the labels looked up =================
-   get_item g st / set_item g st are the accessors with the container's own lookup locate g (c_span st).  Hypotheses: span_ok
-   (range step <> 0; NumPy-array span duplicate-free; pandas: get_loc meets the spec) and own_label_ok for the labels of the key
-   only — for a NumPy-array span: any label that is not a tuple, and a tuple label that is no element unless the span has length
-   1 or 2 (the kept finding's class, C10_arr_tuple_label_aliases_refuted); no condition for the other span types. *)
+(* ================= END TO END: the container's own accessors =================
+   get_item g st / set_item g st are the accessors with the container's own lookup locate g (c_span st).  Only hypothesis about the
+   span: span_ok (range step <> 0; NumPy-array span duplicate-free; pandas: get_loc meets the spec).  No condition on the labels. *)
 (* an access uses the lookup only for the labels of its key (and the span's ends for open slices) *)
 Theorem C10_get_item_depends_on_key_labels (V : Type) (lc lc' : label -> outcome loc) (st : cstate V) (name : string) (k : key) :
   (forall x, In x (key_labels (c_span st) k) -> lc x = lc' x) ->
@@ -449,20 +445,10 @@ Theorem C10_set_item_depends_on_key_labels (V : Type) (lc lc' : label -> outcome
 Proof. exact (@set_item_with_ext V lc lc' st name k w). Qed.
 Print Assumptions C10_set_item_depends_on_key_labels.
 
-(* the own lookup answers as the spec demands for every admissible label, on every span type *)
-Theorem C10_locate_own_spec (g : list label -> label -> outcome loc) (sp : span) (x : label) :
-  span_ok g sp -> own_label_ok sp x ->
-  match pos x (span_labels sp) with
-  | Some p => exists fl, locate g sp x = Ret (LPos (Z.of_nat p) fl)
-  | None => locate g sp x = Raise KeyError
-  end.
-Proof. exact (locate_own_spec g sp x). Qed.
-Print Assumptions C10_locate_own_spec.
-
 Theorem C10_own_label_get_exact (g : list label -> label -> outcome loc) (V : Type) (st : cstate V) (name : string) (sr : series V) (x : label) (p : nat) :
   span_ok g (c_span st) -> lookup name (c_vars st) = Some sr ->
   List.length (s_data sr) = List.length (span_labels (c_span st)) ->
-  own_label_ok (c_span st) x -> pos x (span_labels (c_span st)) = Some p ->
+  pos x (span_labels (c_span st)) = Some p ->
   exists v, nth_error (s_data sr) p = Some v /\ get_item g st name (KLabel x) = Ret (RScalar v).
 Proof. exact (fun H1 H2 H3 => @own_label_get_exact g V st name sr H1 H2 H3 x p). Qed.
 Print Assumptions C10_own_label_get_exact.
@@ -470,7 +456,7 @@ Print Assumptions C10_own_label_get_exact.
 Theorem C10_own_label_set_exact (g : list label -> label -> outcome loc) (V : Type) (st : cstate V) (name : string) (sr : series V) (x : label) (p : nat) (v : V) :
   span_ok g (c_span st) -> lookup name (c_vars st) = Some sr ->
   List.length (s_data sr) = List.length (span_labels (c_span st)) ->
-  own_label_ok (c_span st) x -> pos x (span_labels (c_span st)) = Some p ->
+  pos x (span_labels (c_span st)) = Some p ->
   set_item g st name (KLabel x) (OScalar v) = (set_data st name sr (upd p v (s_data sr)), Ret tt).
 Proof. exact (fun H1 H2 H3 => @own_label_set_exact g V st name sr H1 H2 H3 x p v). Qed.
 Print Assumptions C10_own_label_set_exact.
@@ -478,7 +464,7 @@ Print Assumptions C10_own_label_set_exact.
 (* a label that is not in the span: KeyError, nothing read, nothing written — never another period *)
 Theorem C10_own_missing_label (g : list label -> label -> outcome loc) (V : Type) (st : cstate V) (name : string) (sr : series V) (x : label) (w : operand V) :
   span_ok g (c_span st) -> lookup name (c_vars st) = Some sr ->
-  own_label_ok (c_span st) x -> pos x (span_labels (c_span st)) = None ->
+  pos x (span_labels (c_span st)) = None ->
   get_item g st name (KLabel x) = Raise KeyError /\ set_item g st name (KLabel x) w = (st, Raise KeyError).
 Proof. exact (fun H1 H2 => @own_missing_label g V st name sr H1 H2 x w). Qed.
 Print Assumptions C10_own_missing_label.
@@ -487,7 +473,6 @@ Theorem C10_own_slice_get_exact (g : list label -> label -> outcome loc) (V : Ty
         (a b : option label) (s : option Z) (pa pb : nat) :
   span_ok g (c_span st) -> lookup name (c_vars st) = Some sr ->
   List.length (s_data sr) = List.length (span_labels (c_span st)) ->
-  (forall x, In x (key_labels (c_span st) (KSlice a b s)) -> own_label_ok (c_span st) x) ->
   NoDup (span_labels (c_span st)) ->
   start_pos (span_labels (c_span st)) a = Some pa -> stop_pos (span_labels (c_span st)) b = Some pb -> 0 < step_of s ->
   let L := py_slice_positions (List.length (s_data sr)) (Some (Z.of_nat pa)) (Some (Z.of_nat pb + 1)) (step_of s) in
@@ -501,7 +486,6 @@ Theorem C10_own_slice_set_exact (g : list label -> label -> outcome loc) (V : Ty
         (a b : option label) (s : option Z) (pa pb : nat) (w : operand V) (d' : list V) :
   span_ok g (c_span st) -> lookup name (c_vars st) = Some sr ->
   List.length (s_data sr) = List.length (span_labels (c_span st)) ->
-  (forall x, In x (key_labels (c_span st) (KSlice a b s)) -> own_label_ok (c_span st) x) ->
   NoDup (span_labels (c_span st)) ->
   start_pos (span_labels (c_span st)) a = Some pa -> stop_pos (span_labels (c_span st)) b = Some pb -> 0 < step_of s ->
   assign (s_data sr) (py_slice_positions (List.length (s_data sr)) (Some (Z.of_nat pa)) (Some (Z.of_nat pb + 1)) (step_of s)) w = Ret d' ->
@@ -512,7 +496,6 @@ Print Assumptions C10_own_slice_set_exact.
 Theorem C10_own_missing_bound (g : list label -> label -> outcome loc) (V : Type) (st : cstate V) (name : string) (sr : series V)
         (a b : option label) (s : option Z) (w : operand V) :
   span_ok g (c_span st) -> lookup name (c_vars st) = Some sr ->
-  (forall x, In x (key_labels (c_span st) (KSlice a b s)) -> own_label_ok (c_span st) x) ->
   NoDup (span_labels (c_span st)) ->
   bound_given_or_nonempty st a -> bound_given_or_nonempty st b ->
   (exists x, a = Some x /\ pos x (span_labels (c_span st)) = None)
@@ -521,15 +504,24 @@ Theorem C10_own_missing_bound (g : list label -> label -> outcome loc) (V : Type
 Proof. exact (fun H1 H2 => @own_missing_bound g V st name sr H1 H2 a b s w). Qed.
 Print Assumptions C10_own_missing_bound.
 
-(* the refined guard for NumPy-array spans: a tuple label that is no element, on a span whose length is not 1 or 2, is simply absent *)
-Theorem C10_locate_arr_spec_wide (g : list label -> label -> outcome loc) (ls : list label) (x : label) :
-  NoDup ls -> arr_label_ok ls x ->
-  match pos x ls with
-  | Some p => locate g (SArr ls) x = Ret (LPos (Z.of_nat p) true)
-  | None => locate g (SArr ls) x = Raise KeyError
-  end.
-Proof. exact (locate_arr_spec_wide g ls x). Qed.
-Print Assumptions C10_locate_arr_spec_wide.
+(* every write path of the container itself (label, label slice, position, whole series), every read path *)
+Theorem C10_own_write_then_read_any_path (g : list label -> label -> outcome loc) (V : Type) (st st' : cstate V) (name : string) (sr : series V) (w : wpath V) :
+  span_ok g (c_span st) -> lookup name (c_vars st) = Some sr ->
+  List.length (s_data sr) = List.length (span_labels (c_span st)) ->
+  do_write (locate g (c_span st)) st name w = (st', Ret tt) ->
+  exists d' : list V,
+    List.length d' = List.length (span_labels (c_span st))
+    /\ get_attr st' name = Ret d' /\ get_key st' name = Ret d'
+    /\ (forall x p, pos x (span_labels (c_span st)) = Some p ->
+          exists v, nth_error d' p = Some v
+            /\ get_item_with (locate g (c_span st)) st' name (KLabel x) = Ret (RScalar v)
+            /\ get_pos st' name (Z.of_nat p) = Ret v
+            /\ get_pos st' name (Z.of_nat p - Z.of_nat (List.length d')) = Ret v)
+    /\ (NoDup (span_labels (c_span st)) -> span_labels (c_span st) <> [] ->
+          get_item_with (locate g (c_span st)) st' name (KSlice None None None) = Ret (RArr d'))
+    /\ same_frame st st' name.
+Proof. exact (fun H1 H2 H3 => @own_write_then_read_any_path g V st name sr H1 H2 H3 st' w). Qed.
+Print Assumptions C10_own_write_then_read_any_path.
 
 (* repeated labels: with a GIVEN stop label the slice statement needs no NoDup (list / tuple spans look labels up by first occurrence) *)
 Theorem C10_slice_get_closed_stop_any_span (V : Type) (lc : label -> outcome loc) (st : cstate V) (name : string) (sr : series V)
